@@ -22,7 +22,7 @@ class Livelock(BaseException):
 
 
 C04_CLAUSES = ("rest_device_count", "rest_playfield_count", "rest_conservation", "range", "no_room")
-C05_CLAUSES = ("idle_or_broken", "request_served", "delivery", "retry_or_report", "save_requested")
+C05_CLAUSES = ("idle_or_broken", "request_served", "delivery", "retry_or_report", "save_requested", "saved_delivered")
 
 FAULTS = ("weak", "back_early", "back_late", "late", "stray")
 
@@ -438,7 +438,8 @@ def shape_of(case):
                       for k, v in sorted(case["phys"].get("faults", {}).items()))
     holds = "h" + "".join(k[3] for k in sorted(case["phys"].get("holds", {})))
     bs = topo.get("logic", {}).get("ball_save")
-    save = "s%s%s" % (bs["balls_to_save"], "d" if bs.get("eject_delay_ms") else "") if bs else ""
+    save = "s%s%s%s" % (bs["balls_to_save"], "d" if bs.get("eject_delay_ms") else "",
+                        "E" if bs.get("delayed_eject") else "") if bs else ""
     return "%s|b%d|%s|%s|%s|%s" % (topo.get("kind", "?"), topo["balls"], ops[:40], faults[:30], holds, save)
 
 
@@ -480,6 +481,7 @@ class Monitors:
         self.saves_announced = 0        # balls announced by ball_save_*_saving_ball
         self.save_requests = 0          # balls the ball save then requested for the playfield (Playfield.add_ball)
         self.save_log = []
+        self.save_deliveries_before = 0
         Monitors.current = self
         self._patch_classes()
         self._install_loop_hook()
@@ -616,6 +618,9 @@ class Monitors:
 
     def _on_saving_ball(self, balls=0, **kwargs):
         if balls and balls > 0:
+            if not self.saves_announced:
+                # physical deliveries to the playfield before the first announced save (saved_delivered clause)
+                self.save_deliveries_before = self.world.deliveries.get("playfield", 0)
             self.saves_announced += balls
             self.save_log.append([round(self.vm.now(), 3), "saving_ball", balls])
 
@@ -767,11 +772,13 @@ class Monitors:
 # ---------------------------------------------------------------------------------------------------------
 # the runner
 # ---------------------------------------------------------------------------------------------------------
-def settle(vm, world, horizon):
+def settle(vm, world, horizon, tick=None):
     """Let the world come to rest, then hold it frozen for `horizon` virtual seconds.  Returns True if rested."""
     t0 = vm.now()
     while vm.now() - t0 < SETTLE_CAP:
         vm.advance(5.0)
+        if tick is not None:
+            tick()
         if world.quiescent() and vm.now() - max(world.last_change, t0) >= horizon:
             return True
     return False
@@ -845,9 +852,33 @@ def run_world_case(case, horizon):
                     world.pf_hit()
                 elif k == "ev":
                     vm.advance(float(op[2]))
+                    if op[1] == "ev_save_enable" and mon.saves_announced > mon.save_requests:
+                        # the ball save is armed (again) while a ball it saved is still held back
+                        mon.obs["save_enable_while_saved_ball_held_back"] = \
+                            mon.obs.get("save_enable_while_saved_ball_held_back", 0) + 1
                     vm.machine.events.post(op[1])
                 elif k == "rest":
-                    rested = settle(vm, world, horizon)
+                    if topo.get("logic", {}).get("ball_save", {}).get("delayed_eject"):
+                        # a ball save which holds saved balls back until an event: the event always comes before the
+                        # world is frozen (whatever sub-list of the script the shrinker left)
+                        vm.machine.events.post("ev_save_eject")
+                        mon.obs["delayed_eject_events_before_rest"] = \
+                            mon.obs.get("delayed_eject_events_before_rest", 0) + 1
+                        vm.advance(0.5)
+                        seen = [mon.saves_announced]
+
+                        def tick():
+                            # a ball still rolling when the settle began may drain and be saved after the event above:
+                            # whenever a further save was announced the event is fired again (a coil command then
+                            # restarts the rest horizon)
+                            if mon.saves_announced != seen[0]:
+                                seen[0] = mon.saves_announced
+                                vm.machine.events.post("ev_save_eject")
+                                mon.obs["delayed_eject_events_during_settle"] = \
+                                    mon.obs.get("delayed_eject_events_during_settle", 0) + 1
+                        rested = settle(vm, world, horizon, tick)
+                    else:
+                        rested = settle(vm, world, horizon)
                     evaluate_rest(mon, world, rested, horizon, trace)
                     if mon.broken:
                         stop = True
@@ -1104,6 +1135,38 @@ def evaluate_rest(mon, world, rested, horizon, trace):
                 mon.violation("C05", "delivery", "requested_ball_never_delivered",
                               {"target": tname, "requests": r, "delivered": dl, "still_queued": q,
                                "blocked_ejects": blocked, "late_fall_backs": back_late, "reported_missing": mon.missing_events, "reported_failed": mon.failed_final,
+                               "snapshot": snap, "world_trace": list(world.trace)[-40:]})
+
+        # every ball a ball save announced as saved has physically been delivered to the playfield (or is still queued /
+        # blocked / was reported lost or failed, as in the delivery clause).  Decided on the physical world only: balls
+        # that arrived on the playfield after an MPF/player launch since the first announcement.
+        if mon.saves_announced:
+            mon.clauses["saved_delivered"] += 1
+            dl = world.deliveries.get("playfield", 0) - mon.save_deliveries_before
+            q = sum(queued.values())
+            if mon.saves_announced > dl + q + blocked + mon.missing_events + mon.failed_final + back_late:
+                mon.violation("C05", "saved_delivered", "saved_ball_never_delivered",
+                              {"balls_announced_saved": mon.saves_announced,
+                               "delivered_to_playfield_since_first_save": dl, "still_queued": q,
+                               "blocked_ejects": blocked, "late_fall_backs": back_late,
+                               "reported_missing": mon.missing_events, "reported_failed": mon.failed_final,
+                               "ball_save": mon.topo["logic"].get("ball_save"), "save_log": mon.save_log[-12:],
+                               "snapshot": snap, "world_trace": list(world.trace)[-40:]})
+        # a running game does not count more balls in play than there are balls outside the home devices (trough, drain
+        # device): on the playfield, in a lock/VUK/launcher or on the way.  Only when every device is idle, nothing is
+        # queued or blocked and no ball was reported lost / no coil test knocked balls out.
+        game = mon.m.game
+        if game is not None and all_idle and not queued and not blocked and not mon.missing_events and \
+                not mon.failed_final and not back_late and not world.service_log:
+            mon.clauses["saved_delivered"] += 1
+            home = [dd["name"] for dd in mon.topo["devices"] if dd["name"] in ("bd_trough", "bd_drain")]
+            outside = world.total_balls - sum(phys.get(h, 0) for h in home)
+            if game.balls_in_play > outside:
+                mon.violation("C05", "saved_delivered", "balls_in_play_exceed_balls_outside_home_devices",
+                              {"balls_in_play": game.balls_in_play, "balls_outside_trough_and_drain": outside,
+                               "balls_announced_saved": mon.saves_announced,
+                               "balls_requested_by_ball_save": mon.save_requests,
+                               "ball_save": mon.topo["logic"].get("ball_save"), "save_log": mon.save_log[-12:],
                                "snapshot": snap, "world_trace": list(world.trace)[-40:]})
 
     # every physical failed eject is retried or reported
